@@ -133,11 +133,13 @@ type hubTap struct {
 	mu      sync.Mutex
 	recv    []evRec
 	deletes []evRec
+	all     []evRec // both kinds in the order the hub made the calls
 }
 
 func (t *hubTap) Receive(msg event.MessageMetadata) error {
 	t.mu.Lock()
 	t.recv = append(t.recv, evRec{Kind: "stored", Mailbox: msg.Mailbox, ID: msg.ID})
+	t.all = append(t.all, evRec{Kind: "stored", Mailbox: msg.Mailbox, ID: msg.ID})
 	t.mu.Unlock()
 	return nil
 }
@@ -145,6 +147,7 @@ func (t *hubTap) Receive(msg event.MessageMetadata) error {
 func (t *hubTap) Delete(mailbox string, id string) error {
 	t.mu.Lock()
 	t.deletes = append(t.deletes, evRec{Kind: "deleted", Mailbox: mailbox, ID: id})
+	t.all = append(t.all, evRec{Kind: "deleted", Mailbox: mailbox, ID: id})
 	t.mu.Unlock()
 	return nil
 }
@@ -153,4 +156,11 @@ func (t *hubTap) received() []evRec {
 	t.mu.Lock()
 	defer t.mu.Unlock()
 	return append([]evRec(nil), t.recv...)
+}
+
+// sequence returns every call the hub made to this listener, in order.
+func (t *hubTap) sequence() []evRec {
+	t.mu.Lock()
+	defer t.mu.Unlock()
+	return append([]evRec(nil), t.all...)
 }
